@@ -180,6 +180,70 @@ def run_job(job):
             ev['evals'].append({'how': 'call_positional', 'raised': type(e).__name__, 'again': True, 'res': {'keys': [], 'coefs': []}})
         finally:
             signal.alarm(0)
+    # ---- operators with irrational symbolic results: every evaluation route against the numeric operator ----------
+    import pyref
+    d_, sgn = pyref.sign_table(u)
+    pos = [B for B in range(1, 2 ** d_) if sgn(B, B) * (1 if bin(B).count('1') % 4 in (0, 1) else -1) > 0]      # blades with positive squared norm
+    nul = [B for B in range(1, 2 ** d_) if sgn(B, B) == 0]
+    for ci in range(job.get('n_irr', 0)):
+        eid = f"{job['prefix']}:n{ci}"
+        op = rng.choice(['norm', 'norm', 'normalized', 'sqrtnormsq'])
+        try:
+            signal.alarm(job.get('budget', 60))
+            if not pos:
+                break
+            s_, t_ = sympy.Symbol('s'), sympy.Symbol('t')
+            E = rng.choice(pos)
+            shape = rng.choice(['mono', 'mono_null', 'two'])
+            if shape == 'mono_null' and nul:
+                keys, vs, sig = (E, rng.choice([n for n in nul if n != E] or nul)), [s_, t_], {'s': rng.choice([-3, -2, 2, 5]), 't': rng.choice([-1, 2, 3])}
+            elif shape == 'two' and len(pos) > 1:
+                E2 = rng.choice([p_ for p_ in pos if p_ != E])
+                keys, vs, sig = (E, E2), [s_, t_], rng.choice([{'s': 3, 't': 4}, {'s': -3, 't': 4}, {'s': -5, 't': -12}, {'s': 8, 't': -6}])
+            else:
+                keys, vs, sig = (E,), [s_], {'s': rng.choice([-3, -2, 2, 5, -7])}
+            if len(set(keys)) != len(keys):
+                continue
+            xs = MultiVector.fromkeysvalues(alg, keys, vs)
+            xn = MultiVector.fromkeysvalues(alg, keys, [float(sig[v.name]) for v in vs])
+            fn = {'norm': lambda m: m.norm(), 'normalized': lambda m: m.normalized(), 'sqrtnormsq': lambda m: m.normsq().sqrt()}[op]
+
+            def num2(v):
+                if isinstance(v, sympy.Basic):
+                    if not v.is_number:
+                        raise K.EncodeError('free symbol left')
+                    v = complex(v)
+                    if abs(v.imag) > 1e-12:
+                        raise K.EncodeError('complex value')
+                    v = v.real
+                return K.coef_to_G(float(v))
+            evals = []
+
+            def rec2(how, f):
+                try:
+                    r = f()
+                    evals.append({'how': how, 'raised': '', 'res': {'keys': [int(k) for k in r.keys()], 'coefs': [num2(v).to_json('rat') for v in r.values()]}})
+                except (_Timeout, K.EncodeError):
+                    raise
+                except Exception as e:   # noqa: BLE001
+                    evals.append({'how': how, 'raised': type(e).__name__, 'res': {'keys': [], 'coefs': []}})
+            rs = fn(xs)
+            free = sorted(rs.free_symbols, key=lambda q_: q_.name)
+            svals = {q_: sympy.Integer(sig[q_.name]) for q_ in free}
+            rec2('numeric_operator', lambda: fn(xn))
+            if free:
+                rec2('call_positional', lambda: rs(*[float(sig[q_.name]) for q_ in free]))
+                rec2('call_keyword', lambda: rs(**{q_.name: float(sig[q_.name]) for q_ in free}))
+            rec2('subs', lambda: rs.map(lambda v: v.subs(svals) if isinstance(v, sympy.Basic) else v))
+            events.append({'id': eid, 'kind': 'substnum', 'op': op, 'ring': 'rat', 'params': [], 'raised': '',
+                           'args': [{'keys': [int(k) for k in keys], 'coefs': [K.G.const(sig[v.name]).to_json('rat') for v in vs]}],
+                           'res': {'keys': [], 'coefs': []}, 'sigma': [[n_, v_] for n_, v_ in sorted(sig.items())], 'names': {}, 'witness': {'keys': [], 'coefs': []}, 'evals': evals})
+        except _Timeout:
+            skipped.append([eid, op, 'time budget'])
+        except (K.EncodeError, ValueError) as e:
+            skipped.append([eid, op, f'encode: {e}'])
+        finally:
+            signal.alarm(0)
     K.write_trace(job['out'], {'kind': 'cfg', 'u': u, 'opts': __import__('drive_ops').full_opts(opts)}, events)
     return {'out': job['out'], 'events': len(events), 'skipped': skipped}
 
